@@ -5,6 +5,7 @@ EXTENDS CacheFS
 KeyOfCollide == [x \in {"e1", "e2", "e3"} |-> IF x = "e3" THEN "k2" ELSE "k1"]
 TmpOfDef == [p \in {1, 2} |-> IF p = 1 THEN "t1" ELSE "t2"]
 DevNone == {}
+DevProcessMemo == {"ProcessMemo"}
 DevCheckThenMkdir == {"CheckThenMkdir"}
 DevPinned == {"InPlaceWrite", "UncheckedLoad"}
 =============================================================================
